@@ -472,7 +472,9 @@ Definition ostall_scenario (early : bool) (limit held0 : N) : res (N * N) :=
    for ever: a second Release through it is a no-op, whatever permits have been handed out in between. *)
 Inductive pop : Type :=
 | PopGet                 (* Get..Permit: appends the permit it returns (NoPermit on failure) to the list of handles *)
-| PopRelease (i : nat).  (* Release through the i-th handle ever handed out (no such handle: nothing happens) *)
+| PopRelease (i : nat)   (* Release through the i-th handle ever handed out (no such handle: nothing happens) *)
+| PopRestart.            (* UtpTransportService.Start() called again (every sub-network's PortalProtocol.Start() calls it on
+                            the shared service): startOnce makes it a no-op, the slot controller and its counters stay *)
 
 Definition pop_step (limit : N) (st : N * list permit) (o : pop) : res (N * list permit * bool) :=
   let (sem, hs) := st in
@@ -488,6 +490,7 @@ Definition pop_step (limit : N) (st : N * list permit) (o : pop) : res (N * list
           | (_, Panic) => Panic
           end
       end
+  | PopRestart => Ok (sem, hs, true)
   end.
 
 (* per step: (Get succeeded / n.a., slots in use after the step) *)
